@@ -172,6 +172,11 @@ def file_level_tie(chk: core.Check, rng, cases, thorough) -> int:
                 with rc.NativeBackedReader():
                     arr = pybes3.concatenate_raw(paths, n_block_per_batch=pb, sub_detectors=sel, decode_reid=False)
                 got = rc.expected_to_columns(rc.ak_to_records(arr, sel), sel)
+            except Exception as ex:
+                exp = rc.expected_to_columns(rf.expected([e for bl, _, _ in pick for b in bl for e in b], sel), sel)
+                chk.failing_input("pybes3.concatenate_raw(files, decode_reid=False) [native C++] raised", {"files_hex": [d.hex()[:3000] for d in datas], "n_block_per_batch": pb, "sub_detectors": sel},
+                                  f"{type(ex).__name__}: {str(ex)[:300]}", str(exp)[:1200], "well-formed files are decoded; concatenating files returns the same events in the same order")
+                break
             finally:
                 for q in paths:
                     os.unlink(q)
@@ -378,6 +383,11 @@ def main(chk: core.Check) -> int:
             break
         finally:
             os.unlink(path)
+    if not chk.failing:
+        try:
+            chk.coverage["cpp_coverage_of_well_formed_streams"] = native.raw_cpp_coverage(bufs)
+        except Exception as ex:
+            chk.coverage["cpp_coverage_of_well_formed_streams"] = {"error": f"{type(ex).__name__}: {str(ex)[:200]}"}
     n_file_tie = file_level_tie(chk, rng, cases, thorough) if ok_gen else 0
     if not chk.failing:
         ordered_under_delays(chk, rng)
